@@ -89,6 +89,13 @@ def printer_state_obligations(fnode):
                 star = any(k.arg is None for k in n.keywords)
                 bad = sorted(kws - SAFE_INIT_PRINTING_KW)
                 out.append(("line %d: init_printing leaves the global printer settings alone (keywords %s)" % (n.lineno, sorted(kws)), not bad and not star and not n.args, n.lineno))
+            if name in ("sstr", "sstrrepr") and fnode.name not in ("sstr", "sstrrepr"):
+                out.append(("line %d: %s is called without printer settings" % (n.lineno, name), len(n.args) == 1 and not n.keywords, n.lineno))
+            if name == "ESRPrinter" and fnode.name not in ("sstr", "sstrrepr"):
+                # (sstr / sstrrepr of the printer module hand their caller's settings on: the obligation is on their call sites, above)
+                # every printer of the package is built with the default settings: two printers with different settings (term order, ...) print the same
+                # expression differently, and ESR identifies functions by their string
+                out.append(("line %d: ESRPrinter is constructed with the default settings (no arguments)" % n.lineno, not n.args and not n.keywords, n.lineno))
             if name == "set_global_settings":
                 out.append(("line %d: no call of Printer.set_global_settings" % n.lineno, False, n.lineno))
         if isinstance(n, (ast.Assign, ast.AugAssign)):
